@@ -398,9 +398,35 @@ def gen_pair_content(rng, b, e, depth):
     return out
 
 
+CTRL_SYMS = '[]()<>{}*=,;'
+
+
+def sprinkle_cs(rng, cont, extra=''):
+    """insert control symbols (`\\]`, `\\>`, `\\{` … named like delimiters, braces, modifiers) and `\\relax` at random places:
+    they are ordinary tokens of an unexpanded argument and must neither close, nest nor split anything"""
+    out = list(cont)
+    for _ in range(rng.choice([1, 1, 2, 3])):
+        name = rng.choice(extra + extra + CTRL_SYMS) if extra else rng.choice(CTRL_SYMS)
+        tok = 'x' + (dots('relax') if rng.random() < 0.1 else str(ord(name)))
+        out.insert(rng.randint(0, len(out)), tok)
+    return out
+
+
+def words_src(words):
+    """code points of the TeX source of token words"""
+    out = []
+    for w in words:
+        if w == 's': out.append(' ')
+        elif w in '{}': out.append(w)
+        elif w[0] == 'c': out.append(chr(int(w[1:])))
+        elif w[0] == 'x': out.append('\\' + ''.join(chr(int(x)) for x in w[1:].split('.')) + ' ')
+    return cps_of(''.join(out))
+
+
 def gen_call_case(rng):
     n = rng.randint(1, 6)
     words = [str(n)]
+    nox = rng.random() < 0.4          # unexpanded arguments: control symbols may stand anywhere in the contents
     for i in range(n):
         r = rng.random()
         pre = rng.choice([0, 0, 0, 1])
@@ -412,15 +438,19 @@ def gen_call_case(rng):
             b, e = PAIRS[rng.choice('[[(<{')]
             present = rng.random() < 0.6
             cont = gen_pair_content(rng, b, e, 2) if present else []
+            if present and nox and rng.random() < 0.6:
+                cont = sprinkle_cs(rng, cont, chr(b) + chr(e))
             words += ['%d.%d' % (b, e), str(pre if present else 0), 'P' if present else 'A', str(len(cont))] + cont
         else:
             if rng.random() < 0.2:
                 cont = [w_ch(rng.choice('abcXYZ059.;'))]
             else:
                 cont = gen_content(rng, 2, '')
+                if nox and rng.random() < 0.5:
+                    cont = sprinkle_cs(rng, cont, '{}')
             words += ['t', str(pre), 'P', str(len(cont))] + cont
     rest = rng.choice([[], ['c82'], ['c82', 'c69'], ['{', 'c120', '}'], ['x' + dots('relax'), 'c82'], ['c46']])
-    return Case('call', ' '.join(words + ['|'] + rest), {})
+    return Case('call', ' '.join(words + ['|'] + rest), {'nox': nox})
 
 
 # ---------------------------------------------------------------- arg stream
@@ -448,6 +478,10 @@ def gen_value_words(rng, ty, sub, delim, brace=True, expect=None):
         c = gen_content(rng, 2, '')
         if ty == 'nox' and rng.random() < 0.4:
             c.insert(rng.randint(0, len(c)), 'x' + dots('relax'))
+        if ty == 'nox' and rng.random() < 0.5:
+            c = sprinkle_cs(rng, c)
+        if ty == 'nox' and expect is not None:
+            expect.append('f:' + words_src(c))        # an unexpanded argument is bound to exactly the tokens written
         return c
     if ty in ('str', 'chr'):
         return gen_content(rng, 1 if rng.random() < 0.3 else 0, '')
@@ -732,6 +766,10 @@ def corpus():
         finish_arg_case(Case('arg', '', {'sig': '[ a0:str ] a1', 'toks': ['c91', 'c120', '{', 'c121', '}', 'c93', '{', 'c122', '}', 'c82']}, 'corpus')),
         Case('lit', 'I S 1 2 m1 p0 h 1.15 1 | c103', {'k': 'I'}, 'corpus'),
         Case('call', '2 91.93 0 A 0 t 1 P 3 c97 { } | c82', {}, 'corpus'),
+        # control symbols named like the delimiter are ordinary tokens of an unexpanded argument: \\foo<a\\>b>{m}R, \\foo[x\\[y]{m}R
+        Case('call', '2 60.62 0 P 3 c97 x62 c98 t 0 P 1 c109 | c82', {'nox': True}, 'corpus'),
+        Case('call', '2 91.93 0 P 3 c120 x91 c121 t 0 P 1 c109 | c82', {'nox': True}, 'corpus'),
+        Case('call', '2 t 0 P 3 c97 x125 c98 40.41 0 P 2 x40 c49 | c82', {'nox': True}, 'corpus'),
     ]
 
 
@@ -769,9 +807,10 @@ def impl(case, aux):
         i, k = 1, 0
         while k < n:
             sp = ws[i]; cnt = int(ws[i + 3])
-            if sp == 't': args.append(plasTeX.Argument('a%d' % k, k, {'expanded': True}))
+            opts = {'expanded': False, 'type': 'nox'} if (case.meta or {}).get('nox') else {'expanded': True}
+            if sp == 't': args.append(plasTeX.Argument('a%d' % k, k, dict(opts)))
             elif '.' in sp:
-                b, e = sp.split('.'); args.append(plasTeX.Argument('a%d' % k, k, {'spec': chr(int(b)) + chr(int(e)), 'expanded': True}))
+                b, e = sp.split('.'); args.append(plasTeX.Argument('a%d' % k, k, dict(opts, spec=chr(int(b)) + chr(int(e)))))
             else: args.append(plasTeX.Argument('a%d' % k, k, {'spec': chr(int(sp))}))
             i += 4 + cnt; k += 1
         setattr(cls, '@arguments', args)
